@@ -116,6 +116,12 @@ def ossl_ctx(c, server_side):
     if server_side and c["cred"] != "none":
         cf, kf = CRED_FILES[c["cred"]]
         ctx.load_cert_chain(os.path.join(TESTS, cf), os.path.join(TESTS, kf))
+    if server_side and c["kind"] == "pha":
+        # the client certificate is asked for only after the handshake (verify_client_post_handshake)
+        ctx.post_handshake_auth = True
+        ctx.verify_mode = ssl.CERT_REQUIRED
+        ctx.load_verify_locations(os.path.join(TESTS, CRED_FILES["c_rsa"][0]))
+        ctx.verify_flags |= ssl.VERIFY_X509_PARTIAL_CHAIN       # the end-entity certificate itself is the trust anchor
     if not server_side and c["cauth"]:
         cf, kf = CRED_FILES["c_rsa"]
         ctx.load_cert_chain(os.path.join(TESTS, cf), os.path.join(TESTS, kf))
@@ -161,6 +167,9 @@ def one_connection(c, idx, session_tl=None, session_os=None, cache=None, ctx=Non
             kw["alpn"] = tl_alpn(c)
         if session_tl is not None:
             kw["session"] = session_tl
+        if c["kind"] == "pha":
+            cch, ck = cred("c_rsa")
+            kw["certChain"], kw["privateKey"] = cch, ck
         if c["cred"] == "none":
             gen = conn.handshakeClientAnonymous(async_=True, settings=kw["settings"], session=session_tl)
         else:
@@ -309,7 +318,25 @@ def _run_case(idx, c):
         else:
             der = peer.obj.getpeercert(True)
             cert_ok = der is not None and hashlib.sha256(der).hexdigest()[:16] == chain_digest_pem(c["cred"])
-        if c["cauth"]:
+        if c["kind"] == "pha":
+            # two rounds of post-handshake authentication on the same connection
+            ccert_ok = True
+            for rnd_ in range(2):
+                try:
+                    peer.obj.verify_client_post_handshake()
+                    peer.write(b"req%d" % rnd_)
+                    got = tl_read_all(conn, tl_sock, name, 4)
+                    peer.read_available()
+                    peer.write(b"ack%d" % rnd_)
+                    got2 = tl_read_all(conn, tl_sock, name, 4)
+                    der = peer.obj.getpeercert(True)
+                    ok_ = (got == b"req%d" % rnd_ and got2 == b"ack%d" % rnd_ and der is not None
+                           and hashlib.sha256(der).hexdigest()[:16] == chain_digest_pem("c_rsa"))
+                except Exception as e:      # noqa - OpenSSL reports a failed authentication as SSLError
+                    ok_ = False
+                    res["os_exc"] = "pha round %d: %s" % (rnd_, str(e)[:80])
+                ccert_ok = ccert_ok and ok_
+        elif c["cauth"]:
             cc = conn.session.clientCertChain
             ccert_ok = cc is not None and cc.x509List and hashlib.sha256(bytes(cc.x509List[0].bytes)).hexdigest()[:16] == chain_digest_pem("c_rsa")
     out = {"ev": "RES", "tl_ok": res["tl_ok"], "os_ok": res["os_ok"], "tl": tlv, "os": osv, "dataOk": bool(data_ok),
@@ -361,7 +388,7 @@ def flow_record(c, flow, resumed):
     kex = m["kex"]
     return {"name": "%s-%s-%d-%x" % (c["role"], c["kind"], c["ver"], c["sid"]), "role": role, "ver": c["ver"],
             "certSuite": kex not in ("DH_ANON", "ECDH_ANON") or c["ver"] == 4, "ske": kex != "RSA", "reqCert": bool(c["cauth"]),
-            "npn": False, "srp": False, "pha": False, "ticket": "NST" in flow, "resume": bool(resumed and c["ver"] < 4),
+            "npn": False, "srp": False, "pha": c["kind"] == "pha", "ticket": "NST" in flow, "resume": bool(resumed and c["ver"] < 4),
             "hrr": ("HRR" in flow) or flow.count("CH") == 2, "psk": bool(resumed and c["ver"] == 4),
             "h": [t for t in flow if t not in ("APP", "ALERT", "HB")], "fl": list(range(1, len(flow) + 1))}
 
